@@ -375,7 +375,7 @@ ADDENDA = {
     'C06': ' Whole queues also run with a sequence generator that passes the largest SMPP sequence number in the middle of the queue. Regenerated obligation sender_loop_step_order (Gen/Site dequeueLoop: loop nesting and order of the Sender loop). Round 8: (log.py runs at every level, see C07).',
     'C08': ' Session level: the PDUs the real Sender writes for messages with options and application parameters are read by an independent '
            'receiver (SAR / UDH, esm_class variants with bits 7-6 set), each after every kind of previous message handled by the same Sender task. Round 8: every third text has been through the GSM, packed and UCS2 codecs before it is split; references around the 8-bit wrap. Round 9: what the application does while a message is being segmented: a sending hook that takes 1.2 s per PDU with relative schedule / validity times on the message, a hook that re-targets the message object after the first PDU; regenerated obligation segments_cloned_before_sending (nested function definitions are marked in the fingerprints).',
-    'C09': ' Histories with one source address per message (colliding concatenations), pauses up to the delivery time-to-live between segments. Regenerated obligation handle_request_step_order. Round 8: long messages trickling in: every gap inside the delivery time-to-live, the whole far beyond it. Round 9: regenerated obligation request_handler_awaits_directly (no time-out / task / shield around reassembly).',
+    'C09': ' Histories with one source address per message (colliding concatenations), pauses up to the delivery time-to-live between segments. Regenerated obligation handle_request_step_order. Round 8: long messages trickling in: every gap inside the delivery time-to-live, the whole far beyond it. Round 9: regenerated obligation request_handler_awaits_directly (no time-out / task / shield around reassembly). The reassembly step of put_delivery_segmented is atomic: its await points are regenerated from the source (theorem reassembly_step_is_atomic).',
     'C10': ' History cases: the same text through the packed codec in between, one representative of every Unicode category, decoder history. Round 8: the other users of the codec tables (detect_format, the splitters, SubmitSm.smpp_encode) run between the codec cases; texts of 1025 .. 70000 characters with one outsider of each kind. Round 9: the UCS2 fall-back on the wire for messages sent again after a failed transmission (session ledger, wire check).',
     'C11': ' History cases: repeated texts, decoder input ending in the escape code followed by another input. Round 9: the packed codec through the real Sender on texts of 2100 .. 4500 characters with extension characters early on.',
     'C12': ' Objects are serialised again after the library changed them, the same JSON text is decoded twice with the first result changed in '
